@@ -431,14 +431,14 @@ pub trait AsView: Layout {
         }
 
         let items = range.into_slice_items();
-        let sliced_shape: Vec<_> = items
-            .as_ref()
-            .iter()
-            .copied()
-            .enumerate()
-            .filter_map(|(dim, item)| match item {
-                SliceItem::Index(_) => None,
-                SliceItem::Range(range) => Some(range.index_range(self.size(dim)).steps()),
+
+        // Dimensions which have no corresponding slice item are retained in
+        // full, as in `slice`.
+        let sliced_shape: Vec<_> = (0..self.ndim())
+            .filter_map(|dim| match items.as_ref().get(dim) {
+                Some(SliceItem::Index(_)) => None,
+                Some(SliceItem::Range(range)) => Some(range.index_range(self.size(dim)).steps()),
+                None => Some(self.size(dim)),
             })
             .collect();
         let sliced_len = sliced_shape.iter().product();
